@@ -126,16 +126,6 @@ func c01Apply(w *vx.W, s *c01State, op c01Op) bool {
 	return true
 }
 
-func c01FieldReprs(reprs []c01Repr) []c01Repr {
-	var out []c01Repr
-	for _, r := range reprs {
-		if r.kind != 'U' {
-			out = append(out, r)
-		}
-	}
-	return out
-}
-
 // c01SameFields returns -1 if the lists are equal, else the first differing index.
 func c01SameFields(a, b []HeaderField) int {
 	for i := 0; i < len(a) && i < len(b); i++ {
